@@ -246,10 +246,6 @@ def relabelF (ρ : List Nat) (κ : String → List Nat) (f : MeshFields) : MeshF
 /-- the identity cell maps of `f` -/
 def idCellMaps (f : MeshFields) (ct : String) : List Nat := List.range (f.mesh.cellsOf ct).length
 
-/-- no coincident points: the coordinate key vectors of the (stripped) points are pairwise distinct -/
-def noCoincident (A : Nat) (m : Mesh) : Bool :=
-  (pointData A m).dups.isEmpty
-
 /-- the hypotheses on ONE data set `f` under which `sort` is canonical and relabelled copies of `f`
     compare equal (decidable form of `BaseHyp`, FcProofs/Lemmas/LexsortNoFalseFail.lean):
     well-formed, one block per cell type, cell fields on existing types, some point is connected,
